@@ -142,6 +142,14 @@ CHECKS = {
         note="Trusted: loom's model of Mutex/Condvar and its bounded search. loom never times out, so the time-out branch is exercised only sequentially, and concurrently a deadlock stands for a lost wake-up. Memory orderings are moot (mutexes only). A resource handed out while a refresh is still in progress may be of the previous generation (weakest reading). One refresher at a time.",
         design="§4 C18",
     ),
+    "C19": dict(
+        level="fault_enumeration",
+        engine="mc-restore",
+        technique="bounded exhaustive fault and input enumeration on the real client download_unpack (real file:// HTTP downloader, tar+zstd/gzip unpacker, ancillary verifier, clean-up, marker creation) with complete before/after recursive directory listings",
+        text="Every configuration of a small lattice (range x ancillary option x target pre-state x compression x ledger layout; 6 quick / 48 thorough) is combined with every single alteration (thorough: every compatible pair on three configurations) of what a mirror can serve: 42 kinds of extra entries in immutable archives (ledger/, volatile/, root, marker names, nested and ../ and absolute paths, directories, symlinks and hard links, immutable numbers 0..5) at each position, 20 in the ancillary archive, every honest entry removed / tampered / served as a link, 12 manifest alterations (hash changed, entries removed / merged / added, signature removed / altered / by another key, manifest missing / garbage / duplicated), stream cuts after and inside every entry, truncated and missing archives, and a directory or file in the way of each listed ancillary file. Each case runs through the real Client::cardano_database_v2().download_unpack; the verdict compares complete recursive listings of target, an outside victim directory and the mirror before and after against an independently stated allowed set (trios of the requested range, files vouched with matching SHA-256 by the manifest the harness really signed, the two bootstrap markers), never the return value; an honest download must restore everything. 1475 (quick) / 46,834 (thorough) downloads.",
+        note="max_parallel_downloads = 1 for altered cases, so the abort race between concurrently unpacking archives is not enumerated; one location per archive (no second-mirror fallback); runs as root (no permission faults); beacon 3, 700-byte files; tar / zstd / flate2 are part of the code under test; bytes of immutable files are C10's business; the manifest key is the harness's (real Ed25519).",
+        design="§4 C19",
+    ),
 }
 
 NOT_YET = "check not built yet (work in progress; see DESIGN.md §8 build order)"
